@@ -179,10 +179,18 @@ func one(v Vec, kind string, cli bool) string {
 		foreignBefore = foreign(repo, ents, ns)
 		if cli && kind == "bug" {
 			_ = c.Close()
-			// a unique prefix: one character more than what T shares with its neighbour o1
+			// a unique prefix: one character more than what T shares with any other bug (its neighbour o1 shares two on purpose)
 			n := 3
-			for T.id.String()[:n] == ents["o1"].id.String()[:n] {
-				n++
+			for clash := true; clash; {
+				clash = false
+				for name, e := range ents {
+					if name != "T" && e.id != T.id && e.id.String()[:n] == T.id.String()[:n] {
+						clash = true
+					}
+				}
+				if clash {
+					n++
+				}
 			}
 			cmd := exec.Command(gitbug, "bug", "rm", T.id.String()[:n])
 			cmd.Dir = dir
